@@ -107,8 +107,23 @@ def _Stages(case, text):
   return out
 
 
+def _Died(case, reason):
+  """The pipeline killed its process (or never returned) on this program: an
+  internal failure of the implementation, judged like any other outcome."""
+  try:
+    text = case.get('text') or ir.RenderProgram(case['prog'])
+  except BaseException:  # pylint: disable=broad-except
+    text = ''
+  return {'status': 'internal', 'stage': 'process', 'cls': 'WorkerDied',
+          'msg': 'the process running the pipeline %s' % reason, 'preds': {},
+          'text': text}
+
+
 def RunImpl(cases, workers=None):
-  return common.ParallelMap(_RunOne, cases, workers=workers, chunksize=4)
+  return common.ParallelMap(_RunOne, cases, workers=workers, chunksize=4,
+                            on_death=_Died,
+                            item_timeout=int(os.environ.get(
+                                'VERIF_ITEM_TIMEOUT', '900')))
 
 
 def StripForTlc(x):
